@@ -111,7 +111,10 @@ static int run_one(const struct work *w, struct result *r, int verbose)
 	}
 	while (waitpid(pid, &st, 0) < 0 && errno == EINTR)
 		;
-	if (WIFSIGNALED(st)) {
+	if (WIFSIGNALED(st) && WTERMSIG(st) == SIGALRM) {
+		r->status = ST_INTERNAL;
+		snprintf(r->msg, sizeof(r->msg), "execution exceeded the 120 s wall-clock watchdog (runtime hang)");
+	} else if (WIFSIGNALED(st)) {
 		if (r->status <= 0 || r->status == -1) {
 			r->status = ST_CRASH;
 			if (!r->msg[0])
